@@ -18,4 +18,13 @@ def jobs(tier, seed, prop='C14'):
             J.append(vf.Job('%s/records/%s' % (prop, nm), ['C14_records.c', 'stubs/log_stubs.c'], units=US, entry='c14_record_zy', defines=['WHICH=%d' % w], cflags=vf.PATHMAX64, unwind=10, timeout=900, mem_gb=8, native=False,
                             decisive=r'VF:|unwinding', funcs=['state_read_content (record handler %s, verbatim slice)' % ('z' if w == 0 else 'y'), 'sgetb32'], cost=20,
                             sample={'record': 'z' if w == 0 else 'y', 'recorded value': 'all 32-bit values', 'configured value': 'symbolic', 'no configuration file (auto-assign)': 'symbolic'}))
+    if prop == 'C14':
+        UA = [vf.Unit('cmdline/scan.c', flags=vf.PATHMAX64, transform=slicer.block_after('static int state_diffscan(', '/* check for disks where all the previously existing files where removed */', 'vf_slice_allmissing',
+                      'struct snapraid_state* state, tommy_list scanlist, int is_diff', '\ttommy_node* i; tommy_node* j; int done; (void)i; (void)j; (void)done;'))]
+        for nd in ((1, 2, 3) if tier == 'quick' else (1, 2, 3, 4, 6)):
+            J.append(vf.Job('%s/allmissing/disks%d' % (prop, nd), ['C14_allmissing.c', 'stubs/log_stubs.c'], units=UA, entry='c14_allmissing', defines=['NDISK=%d' % nd], cflags=vf.PATHMAX64, unwind=nd + 2, timeout=900, mem_gb=8, native=False,
+                            decisive=r'VF:|unwinding', funcs=['state_diffscan (verbatim block: disks where all previously existing files were removed)'], cost=20,
+                            sample={'disks': nd, 'per-disk counters equal/move/restore/change/copy/insert/remove': 'all 32-bit values', '--force-empty, diff vs sync': 'symbolic'}))
+        J.append(vf.Job('%s/allmissing/negctl' % prop, ['C14_allmissing.c', 'stubs/log_stubs.c'], units=UA, entry='c14_allmissing', defines=['NDISK=2', 'NEGCTL'], cflags=vf.PATHMAX64, unwind=4, kind='negctl', native=False,
+                        decisive=r'VF:|unwinding', sample={'wrong_oracle': 'refusal expected even with --force-empty'}))
     return J
